@@ -602,6 +602,59 @@ def notify_dependencies(fn):
             "    else s) triggers s.\n")
 
 
+SCHED_RUN = [
+    'world.until = until',
+    'if rt_factor is not None and rt_factor <= 0:\n    raise ValueError(\'"rt_factor" is %s but must be > 0"\' % rt_factor)',
+    'if rt_factor is not None:\n    rt_factor *= world.time_resolution',
+    'world.rt_factor = rt_factor',
+    'setup_done_events: List[asyncio.Task[None]] = []',
+    "for sim in world.sims.values():\n    sim.tqdm.set_postfix_str('setup')\n    setup_done_events.append(world.loop.create_task(sim.setup_done()))",
+    'await asyncio.gather(*setup_done_events)',
+    'for sim in world.sims.values():\n    sim.rt_start = perf_counter()',
+    'processes: List[asyncio.Task[None]] = []',
+    "for sim in world.sims.values():\n    process = world.loop.create_task(sim_process(world, sim, until, rt_factor, rt_strict, lazy_stepping), name=f'Runner for {sim.sid}')\n    sim.task = process\n    processes.append(process)",
+    'try:\n    await asyncio.gather(*processes)\nexcept BaseException:\n    for process in processes:\n        process.cancel()\n    await asyncio.gather(*processes, return_exceptions=True)\n    raise',
+]
+WORLD_RUN = [
+    "if hasattr(self, 'until'):\n    raise RuntimeError('Simulation has already been run and can only be run once for a World instance.')",
+    'self.ensure_no_dataflow_cycles()',
+    'self.cache_triggering_ancestors()',
+    'import mosaik._debug as dbg',
+    'if self._debug:\n    dbg.enable()',
+    'success = False',
+]
+WORLD_RUN_TRY = ('self.loop.run_until_complete(scheduler.run(self, until, rt_factor, rt_strict, lazy_stepping))', 'success = True')
+WORLD_RUN_FINALLY = ['self.shutdown()', 'if self._debug:\n    dbg.disable()']
+
+
+def run_skeletons(fn_run, sc_tree):
+    """scheduler.run and World.run are compared with the skeleton the model assumes: every simulator is asked setup_done, the
+    clock of every simulator starts after all have answered, every simulator gets its own sim_process task with the arguments
+    of run, a failure cancels all tasks; World.run does nothing to the tables between the two closures and the scheduler
+    (progress bars and log lines are not looked at)"""
+    got = [ast.unparse(st) for st in strip_doc(fn_run.body)]
+    if got != SCHED_RUN:
+        k = next((i for i in range(min(len(got), len(SCHED_RUN))) if got[i] != SCHED_RUN[i]), min(len(got), len(SCHED_RUN)))
+        bail(strip_doc(fn_run.body)[k] if k < len(got) else fn_run, 'scheduler.run differs from the skeleton the model assumes')
+    cls = [n for n in sc_tree.body if isinstance(n, ast.ClassDef) and n.name == 'World']
+    f = [n for n in cls[0].body if isinstance(n, ast.FunctionDef) and n.name == 'run'] if len(cls) == 1 else []
+    if len(f) != 1: raise Unsupported('World.run not found')
+    f = f[0]
+    if [a.arg for a in f.args.args] != ['self', 'until', 'rt_factor', 'rt_strict', 'print_progress', 'lazy_stepping']: bail(f, 'signature of World.run')
+    def noise(st):
+        t = ast.unparse(st)
+        return (('tqdm' in t and not isinstance(st, ast.Try)) or t.startswith('logger.') or t.startswith('max_sim_id_len = ') or t.startswith('until_len = '))
+    body = [st for st in strip_doc(f.body) if not noise(st)]
+    if [ast.unparse(st) for st in body[:-1]] != WORLD_RUN or not isinstance(body[-1], ast.Try): bail(f, 'World.run differs from the skeleton the model assumes')
+    tr = body[-1]
+    if tuple(ast.unparse(st) for st in tr.body) != WORLD_RUN_TRY: bail(tr, 'World.run: the call of the scheduler')
+    for h in tr.handlers:
+        if ast.unparse(h.type) not in ('KeyboardInterrupt', 'RemoteException') or any(not ast.unparse(x).startswith('logger.') for x in h.body): bail(h, 'World.run: exception handler')
+    fin = [ast.unparse(st) for st in tr.finalbody if not noise(st) and not ast.unparse(st).startswith('if success:')]
+    if fin != WORLD_RUN_FINALLY: bail(tr, 'World.run: clean-up')
+    return "(* scheduler.run and World.run: compared with the skeleton the model assumes (harness/py2coq_sched.py run_skeletons); nothing is emitted *)\n"
+
+
 def tt_expr(e):
     """the constructor expressions used when a SimRunner is made and when a step is queued from outside the scheduler"""
     import re
@@ -683,7 +736,7 @@ def main():
     repo, outdir = sys.argv[1], sys.argv[2]
     tree = ast.parse(open(os.path.join(repo, 'mosaik', 'scheduler.py')).read())
     fns = {n.name: n for n in tree.body if isinstance(n, (ast.FunctionDef, ast.AsyncFunctionDef))}
-    for name in ('get_max_advance', 'advance_progress', 'wait_for_dependencies', 'step', 'get_outputs', 'sim_process', 'next_step_settled', 'notify_dependencies'):
+    for name in ('get_max_advance', 'advance_progress', 'wait_for_dependencies', 'step', 'get_outputs', 'sim_process', 'next_step_settled', 'notify_dependencies', 'run'):
         if name not in fns: raise Unsupported(f'function {name} not found')
     ptree = ast.parse(open(os.path.join(repo, 'mosaik', 'progress.py')).read())
     out = ["(* generated by harness/py2coq_sched.py from mosaik/scheduler.py and mosaik/progress.py -- do not edit; regenerated on every run *)",
@@ -691,6 +744,7 @@ def main():
            get_max_advance(fns['get_max_advance']), advance_progress(fns['advance_progress']), progress_class(ptree), wait_for_dependencies(fns['wait_for_dependencies']),
            schedule_step(ast.parse(open(os.path.join(repo, 'mosaik', 'simmanager.py')).read())),
            step_reply(fns['step']), output_time_rule(fns['get_outputs']), sim_process(fns['sim_process']), next_step_settled(fns['next_step_settled']), notify_dependencies(fns['notify_dependencies']),
+           run_skeletons(fns['run'], ast.parse(open(os.path.join(repo, 'mosaik', 'scenario.py')).read())),
            runner_setup(ast.parse(open(os.path.join(repo, 'mosaik', 'simmanager.py')).read()), ast.parse(open(os.path.join(repo, 'mosaik', 'scenario.py')).read()))]
     text = '\n'.join(out)
     path = os.path.join(outdir, 'SchedulerFns.v')
